@@ -193,6 +193,16 @@ APPEND = {
     ("C03_unsync_load_out", "unsync_load_out", "the invariant survives unsync_load"),
     ("C03_with_mut_out", "with_mut_out", "and with_mut"),
     ("C03_bstep_out", "bstep_out", "every step kind of the generalised machine (model steps, stores/RMWs with any released clock below the thread's clock, unsync accesses, admissible growth): invariant kept, stamps kept, mo only extended, clocks only grow"),
+ ]), ("LV.AtomicFacts LV.AtomicCoherence LV.AtomicCoRR LV.AtomicClosure LV.AtomicBridge LV.NotifyFacts LV.ClockFacts LV.SyncMono LV.AtomicRun", "OVER EXECUTIONS OF THE MODEL L (AtomicRun.v): along SyncMono.steps -- arbitrary interleavings of the micro-operations of all threads, scheduling and spawn included -- the invariant of one atomic cell is preserved. Remaining hypotheses, stated in the theorems: the invariant on the first state (the declared atomics start with the all-zero clock, which the invariant's `key >= 1` clause excludes: to be weakened), and AccSide (every access micro-operation on the cell is a machine step: proved by the six _is_step lemmas from `replayed index is a candidate`, `t_rel <= t_caus`, `ring not full`)", [
+    ("C03_exec_micro_akeep", "exec_micro_akeep", "THE FRAME LEMMA: every micro-operation that is not an access to atomic a (scheduling, park, yield, every operation on other objects and other atomics, fences, spawn, termination: one tactic over all 77 micro-operations) keeps a's stores, count and mutating flag"),
+    ("C03_growto_goodS", "growto_goodS", "the invariant survives ANY change of the clock list that grows pointwise and stays bounded by the owners' own components"),
+    ("C03_exec_growto", "exec_growto", "and every micro-operation is such a change (ClockFacts.clock_wf + SyncMono's monotonicity), on the clock list padded with empty clocks for unspawned threads, so spawn is an ordinary growth step"),
+    ("C03_frame_step_goodS", "frame_step_goodS", "hence a non-access micro-operation preserves the invariant of a"),
+    ("C03_access_step_padded", "access_step_padded", "an access step looks at the accessing thread's clock only: the _is_step lemmas transfer to the padded list"),
+    ("C03_step_goodAt", "step_goodAt", "one step of the execution model preserves the invariant of a"),
+    ("C03_steps_goodAt", "steps_goodAt", "along any number of steps"),
+    ("C03_steps_atomicity", "steps_atomicity", "RMW atomicity in every state along the steps"),
+    ("C03_steps_never_none", "steps_never_none", "loom's assert_ne cannot fire along the steps"),
  ])],
  "C02": [("LV.AtomicFacts LV.AtomicCoherence", "Nothing allowed is pruned without a reason: the candidate set is never empty and contains every mo-maximal store (AtomicCoherence.v)", [
     ("C02_mo_maximal_is_candidate", "mo_maximal_is_candidate", "a live store with no mo-later live store is always a candidate"),
